@@ -16,8 +16,8 @@
 (*   hasPart  a styles part exists (was saved or loaded)                    *)
 (*   part, pver   ids / non-base versions written at the last save or       *)
 (*            carried by the opened package                                 *)
-(*   pending  {[id, kind]} ids added ("added") or changed ("changed") through *)
-(*            the style API since the last save                              *)
+(*   pending  {[id, kind]} ids added ("added") / changed ("changed")         *)
+(*            through the style API since the last save                      *)
 (*   removed  ids the caller removed from the registry (and did not re-add) *)
 (*   refs     {[id, by]}  pStyle/rStyle/tblStyle ids present in the body,   *)
 (*            tagged with the helper that first emitted them                *)
@@ -25,7 +25,7 @@
 (*   nrefs    {[n, by]}  numIds used by list paragraphs                     *)
 (*   nums     {[n, a]}   num -> abstractNum ; abss  set of abstractNum ids  *)
 (*   absFor   {[t, a]}   abstract definition used for list type t           *)
-(*   nrefs / notes / noterefs  {[k, id(, by)]} k in {"fn","en"}             *)
+(*   notes {[k, id]} / noterefs {[k, id, by]}   k in {"fn","en"}             *)
 (*   rmnotes  notes removed by the caller                                   *)
 (* An operation is a record [op |-> name, ...args].                         *)
 (***************************************************************************)
